@@ -72,6 +72,7 @@ class SeqRun(object):
         self.trace = []
         self.op_calls = []
         self.key_conflict_reported = False
+        self.db_commits = 0
 
     # ------------------------------------------------------------------ infrastructure
     def viol(self, prop, sub, shape, detail):
@@ -111,6 +112,18 @@ class SeqRun(object):
                     if a.is_set:
                         getattr(self.E[e.name], a.name).nplus1_threshold = self.knobs['nplus1']
         self.dump_sql = self._make_dump_sql()
+        simdb.ctx.after_call = self.after_db_call
+
+    def after_db_call(self, ev):
+        """The committed model moves exactly when a real COMMIT of an open transaction returns: whatever
+        happens afterwards (errors while releasing the connection included) cannot undo it."""
+        if ev['phase'] == 'main' and ev['kind'] == 'commit' and ev.get('in_tx') and 'exc' not in ev \
+                and self.view is not None:
+            self.refresh_pks()
+            for o in self.view.live():
+                o.stored = True
+            self.committed = self.view.clone()
+            self.db_commits += 1
 
     def _make_dump_sql(self):
         """SELECT statements built from Pony's own metadata (table / column names)."""
